@@ -24,15 +24,20 @@ structure TrigRel (now : Int) (tOK : Int → Prop) (C : Dt → Prop) (R : Dt →
   ctx : ∀ d d', R d d' → C d → C d'
   trig : ∀ t d, tOK t → C d → canBeTriggered now d = true → d.removed = false → R d (trigSelf t d)
 
-/-- … and for the other primitive updates of the model. -/
-structure StepRel (now : Int) (tOK : Int → Prop) (C : Dt → Prop) (R : Dt → Dt → Prop) : Prop
+/-- … for what creating/starting a downtime does in addition (no removal). -/
+structure AddRel (now : Int) (tOK : Int → Prop) (C : Dt → Prop) (R : Dt → Dt → Prop) : Prop
     extends TrigRel now tOK C R where
   startT : ∀ d, C d → d.fixed = true → canBeTriggered now d = true → d.removed = false → tOK (max d.start d.entry)
   start : ∀ d, C d → d.fixed = true → canBeTriggered now d = true → d.removed = false → R d (startSelf d)
-  remove : ∀ d, C d → d.removed = false → R d (removeDt now d)
   setup : ∀ d, C d → d.removed = false → R d (setupCleanup d)
   addTrig : ∀ c d, C d → d.removed = false → R d (addTrigger c d)
-  disarm : ∀ d, C d → d.removed = false → R d { d with cleanup := none }
+
+/-- … and for the other primitive updates of the model. -/
+structure StepRel (now : Int) (tOK : Int → Prop) (C : Dt → Prop) (R : Dt → Dt → Prop) : Prop
+    extends AddRel now tOK C R where
+  remove : ∀ d, C d → d.removed = false → R d (removeDt now d)
+  disarm : ∀ d, C d → d.removed = false → cleanupDue now d = true → isExpired now d = false →
+    R d { d with cleanup := none }
 
 theorem both_refl {R : Dt → Dt → Prop} (hr : ∀ d, R d d) (l : List Dt) : Both R l l :=
   ⟨fun d hd => ⟨d, hd, hr d⟩, fun d hd => ⟨d, hd, hr d⟩⟩
@@ -132,7 +137,7 @@ theorem both_triggerAll (tr : TrigRel now tOK C R) (t : Int) (ht : tOK t) (l : L
   unfold triggerAll
   exact both_foldl tr.refl tr.trans tr.ctx _ (fun acc i hacc => both_triggerDt tr _ t ht i acc hacc) _ _ ha
 
-theorem both_startG (sr : StepRel now tOK C R) (l : List Dt) (id : Nat) (ha : AllC C l) :
+theorem both_startG (sr : AddRel now tOK C R) (l : List Dt) (id : Nat) (ha : AllC C l) :
     Both R l (updateDt l id (startSelfG now)) := by
   apply both_updateDt sr.refl
   intro d hd hr
@@ -148,7 +153,7 @@ theorem mem_of_findDt {l : List Dt} {id : Nat} {d : Dt} (h : findDt l id = some 
   unfold findDt at h
   exact ⟨List.mem_of_find?_eq_some h, List.find?_some h⟩
 
-theorem both_startAt (sr : StepRel now tOK C R) (fuel : Nat) (l : List Dt) (id : Nat) (ha : AllC C l) :
+theorem both_startAt (sr : AddRel now tOK C R) (fuel : Nat) (l : List Dt) (id : Nat) (ha : AllC C l) :
     Both R l (startAt now fuel l id) := by
   unfold startAt
   split
@@ -164,7 +169,7 @@ theorem both_startAt (sr : StepRel now tOK C R) (fuel : Nat) (l : List Dt) (id :
         (both_cascade sr.toTrigRel fuel _ ht _ _ (allc_of_both sr.ctx h1 ha))
     · exact both_refl sr.refl l
 
-theorem both_startTimer (sr : StepRel now tOK C R) (l : List Dt) (ha : AllC C l) :
+theorem both_startTimer (sr : AddRel now tOK C R) (l : List Dt) (ha : AllC C l) :
     Both R l (startTimer now l) := by
   unfold startTimer
   exact both_foldl sr.refl sr.trans sr.ctx _ (fun acc i hacc => both_startAt sr _ acc i hacc) _ _ ha
@@ -180,7 +185,8 @@ theorem both_fireCleanup (sr : StepRel now tOK C R) (l : List Dt) (ha : AllC C l
     simp only [hc, if_true]
     split
     · exact sr.remove d (ha d hd) hr
-    · exact sr.disarm d (ha d hd) hr
+    · rename_i hexp
+      exact sr.disarm d (ha d hd) hr hc (by simpa using hexp)
   · simp only [hc]; exact sr.refl d
 
 theorem both_pump (sr : StepRel now tOK C R) (st : St) (ha : AllC C st.dts) :
@@ -190,12 +196,12 @@ theorem both_pump (sr : StepRel now tOK C R) (st : St) (ha : AllC C st.dts) :
   have h1 := both_fireCleanup sr st.dts ha
   have a1 := allc_of_both sr.ctx h1 ha
   split
-  · have h2 := both_startTimer sr _ a1
+  · have h2 := both_startTimer sr.toAddRel _ a1
     have a2 := allc_of_both sr.ctx h2 a1
     exact both_trans sr.trans h1 (both_trans sr.trans h2 (both_fireCleanup sr _ a2))
   · exact h1
 
-theorem both_result (sr : StepRel now tOK C R) (st : St) (s : Nat) (te : Int) (ht : tOK te)
+theorem both_result (sr : TrigRel now tOK C R) (st : St) (s : Nat) (te : Int) (ht : tOK te)
     (ha : AllC C st.dts) :
     Both R st.dts (resultOp st s te now).1.dts := by
   unfold resultOp
@@ -203,7 +209,7 @@ theorem both_result (sr : StepRel now tOK C R) (st : St) (s : Nat) (te : Int) (h
   · exact both_refl sr.refl _
   · simp only
     split
-    · exact both_triggerAll sr.toTrigRel te ht _ ha
+    · exact both_triggerAll sr te ht _ ha
     · exact both_refl sr.refl _
 
 theorem both_remove (sr : StepRel now tOK C R) (st : St) (id : Nat) (u : Bool) (ha : AllC C st.dts) :
@@ -242,7 +248,7 @@ def OpT (st : St) (tOK : Int → Prop) (C : Dt → Prop) : Op → Prop
   | _ => True
 
 /-- The part of `addOp` after the new downtime has been appended. -/
-theorem both_add_tail (sr : StepRel now tOK C R) (st : St) (p : AddP)
+theorem both_add_tail (sr : AddRel now tOK C R) (st : St) (p : AddP)
     (h : st.dts.any (fun d => d.id == p.id) = false) (ha : AllC C st.dts)
     (hop : OpT st tOK C (.add p now)) :
     Both R (st.dts ++ [newDt st p now]) (addOp st p now).1.dts := by
@@ -293,8 +299,8 @@ theorem step_succ (st : St) (op : Op) (sr : StepRel op.now tOK C R) (ha : AllC C
     · refine ⟨d, ?_, sr.refl d⟩
       simp [addOp, h]; exact hd
     · have h' : st.dts.any (fun d => d.id == p.id) = false := by simpa using h
-      exact (both_add_tail sr st p h' ha hop).1 d (List.mem_append_left _ hd)
-  | result s te now => exact (both_result sr st s te hop ha).1
+      exact (both_add_tail sr.toAddRel st p h' ha hop).1 d (List.mem_append_left _ hd)
+  | result s te now => exact (both_result sr.toAddRel.toTrigRel st s te hop ha).1
   | pump now => exact (both_pump sr st ha).1
   | remove id u now => exact (both_remove sr st id u ha).1
 
@@ -313,13 +319,13 @@ theorem step_pred (st : St) (op : Op) (sr : StepRel op.now tOK C R) (ha : AllC C
       refine ⟨d', ?_, sr.refl d'⟩
       simpa [addOp, h] using hd'
     · have h' : st.dts.any (fun d => d.id == p.id) = false := by simpa using h
-      obtain ⟨d, hd, r⟩ := (both_add_tail sr st p h' ha hop).2 d' hd'
+      obtain ⟨d, hd, r⟩ := (both_add_tail sr.toAddRel st p h' ha hop).2 d' hd'
       rcases List.mem_append.mp hd with hm | hm
       · exact Or.inl ⟨d, hm, r⟩
       · right
         refine ⟨p, rfl, ?_⟩
         simp at hm; subst hm; exact r
-  | result s te now => intro d' hd'; exact Or.inl ((both_result sr st s te hop ha).2 d' hd')
+  | result s te now => intro d' hd'; exact Or.inl ((both_result sr.toAddRel.toTrigRel st s te hop ha).2 d' hd')
   | pump now => intro d' hd'; exact Or.inl ((both_pump sr st ha).2 d' hd')
   | remove id u now => intro d' hd'; exact Or.inl ((both_remove sr st id u ha).2 d' hd')
 
